@@ -14,7 +14,7 @@ def make_check():
         "C05",
         make_targets=["Properties/C05.vo", "Ssz/SszRun.vo", "Ssz/SszDescCheck.vo", "Ssz/SchemaDump.vo"],
         trust=S.SSZ_TRUST,
-        model_files=S.SSZ_MODEL_FILES + ["coq/Ssz/TreeView.v", "coq/Properties/C05.v", "harness/cmd/c05/main.go", "harness/sszgen/viewops.go"],
+        model_files=S.SSZ_MODEL_FILES + ["coq/Ssz/TreeView.v", "coq/Ssz/TreeValue.v", "coq/Properties/C05.v", "harness/cmd/c05/main.go", "harness/sszgen/viewops.go"],
         pre_steps=[S.translate, S.dump_schemas],
         known_match=S.KNOWN_MATCH,
         notes="Roots are compared for values accepted by the strict model; malformed-input behaviour is C04's. Mutation programs use the public ztyp view API on views created by zrnt's type definitions.",
